@@ -135,6 +135,12 @@ def conv_mtf(which):
     cv = get('prysm.convolution')
     otf = get('prysm.otf')
     m, n = int(rng.integers(1, 10)), int(rng.integers(1, 10))
+    if rng.random() < 0.3:
+        # lengths that are awkward for an FFT (large prime factors) next to friendly ones: "for every array shape"
+        big = [11, 13, 14, 17, 19, 22, 23, 26, 29, 31]
+        m, n = (int(rng.choice(big)), n) if rng.random() < 0.5 else (m, int(rng.choice(big)))
+        if rng.random() < 0.3:
+            m, n = int(rng.choice(big)), int(rng.choice(big))
     o, o2, h = vary_layout(rng, rng.standard_normal((m, n))), rng.standard_normal((m, n)), vary_layout(rng, rng.random((m, n)))     # any memory layout
     tol = dict(rtol=1e-9, atol=1e-9)
     if which == 'conv-algebra':
@@ -168,6 +174,9 @@ def conv_mtf(which):
             check('list-equals-product-shift=%s' % shift, bool(np.allclose(a, b, **tol)))
             c = cv.apply_transfer_functions(o, 1.0, [np.ones((m, n))], shift=shift)
             check('all-ones-is-identity-shift=%s' % shift, bool(np.allclose(c, o, **tol)))
+            # the empty list is the empty product, i.e. the all-ones transfer function: same result in the same convention
+            e = cv.apply_transfer_functions(o, 1.0, [], shift=shift)
+            check('empty-list-is-the-all-ones-list-shift=%s' % shift, bool(np.allclose(e, c, **tol)))
     elif which == 'transfer-function-callables':
         dx = float(rng.uniform(0.5, 2))
         seen = {}
